@@ -99,4 +99,19 @@ PROPS = {
         level_note='Termination of the V50 loop, the 0.5 % reading of its fixed point and the Wilson-stratified monotonicity are partial (search only). '
                    'Model regenerated from the Python each run and executed bit-exactly against it (V50 with fuel 400).',
     ),
+    'C05': dict(
+        own_files=['Lemmas/LC05.v', 'Props/C05.v'],
+        corr=[dict(script='corr_gen.py', n=300, n_thorough=6000,
+                   args=['Framework.slip_ratio', 'Framework.Cvs_from_Cvt', 'Framework.Cvt_Erhg', 'Framework.Cvt_Erhg_dict', 'Framework.Cvt_regime',
+                         'Framework.LDV', 'Stratified.vls_FBSB'])],
+        search='C05.py', budget_quick=500, budget_thorough=30000,
+        partial=['C05_upper: Xi <= 1 - Cvt/Cvb (hence Cvs <= Cvb) on E is not proved (the Xi_HeHo / transition-blend branches couple LDV, LSDV and '
+                 'settling in eight dimensions); proved is its equivalence with Cvs <= Cvb; searched with corner- and low-speed-weighted sampling'],
+        level_text='Proof (regenerated model, all reals): the delivered-concentration dict is the spatial-concentration dict at Cvs = Cvt/(1-Xi) divided '
+                   'by (1-Xi) for every regime, carries the slip it used and the liquid gradient, never reports FB / "fixed bed" (the inner FB case '
+                   'is remapped to the smaller of SB and He); for every input with 0 <= Dp and Cvt < Cvb the slip ratio is a convex blend that is '
+                   'positive and not below the three-layer-model slip, itself strictly between 0 and 1-Cvt/Cvb, so Cvt < Cvs. The upper bound is partial.',
+        level_note='Upper bound Xi <= 1 - Cvt/Cvb: search only. Known finding: exact binary64 zero of the Eqn 8.12-3 denominator (ZeroDivisionError) on a '
+                   'measure-zero set.',
+    ),
 }
